@@ -183,16 +183,6 @@ Fixpoint first_stop (rs : list (stmt_result * store)) : option stmt_result :=
   | (r, _) :: rest => if is_rok r then first_stop rest else Some r
   end.
 
-(* the name an output declaration declares, for every shape the grammar allows
-   (`"output" ~ WHITESPACE+ ~ (assignment | identifier)`) *)
-Definition decl_name_fixed33 (e : expr) : option string :=
-  match e with
-  | EId x | EOutput (EId x) => Some x
-  | EAssign x _ | EOutput (EAssign x _) => Some x
-  | EBuiltin b | EOutput (EBuiltin b) => Some (builtin_name b)
-  | _ => None
-  end.
-
 Section Cli.
   Variable eval : cfg -> expr -> result.
 
@@ -217,44 +207,15 @@ Section Cli.
     | (Some inputs, st) =>
         match m with
         | MNoScript =>
-            (* main.rs:443-469: `if !outputs.is_empty() || output_path.is_some()` — outputs is
-               always empty here, so with -o an empty object is written before exit(1) *)
-            {| cr_exit := Some 1; cr_stdout := None;
-               cr_file := if out_file then Some [] else None |}
+            (* main.rs "Cannot start Interactive Mode after reading piped input": exit(1), nothing
+               is written (repo fix 43a3324; before it, `-o FILE` received an empty object) *)
+            cli_fail 1
         | _ =>
             match prog with
             | None => cli_fail 1                     (* "Parse error" *)
             | Some p => run_script out_file (cli_session st inputs) p
             end
         end
-    end.
-  (* one statement after fixes/C19-output-name-not-a-binding.diff (known finding F33): the
-     `output x` arm records the value the statement just evaluated, like the `output x = e` arm;
-     a built-in name parses as EBuiltin and is recorded under its own name *)
-  Definition exec_stmt_fixed33 (s : session) (t : stmt) : session * stmt_result :=
-    match t with
-    | SOut e =>
-        let '(r, c') := eval (s_cfg s) e in
-        let '(st', fr') := c' in
-        match decl_name_fixed33 e, r with
-        | Some x, Ok v =>
-            if validate_portable st' fr' v
-            then ({| s_cfg := c'; s_outputs := out_insert (s_outputs s) x v |}, ROk v)
-            else ({| s_cfg := c'; s_outputs := s_outputs s |}, ROutErr)
-        | _, _ =>
-            ({| s_cfg := c'; s_outputs := s_outputs s |},
-             match r with Ok w => ROk w | o => RFail o end)
-        end
-    | _ => exec_stmt eval s t
-    end.
-
-  (* the driver after fixes/C19-no-output-file-on-error.diff (known finding F34): the no-script
-     error exit writes nothing, whether or not the inputs parse *)
-  Definition cli_run_fixed34 (m : mode) (out_file : bool) (stdin : option input_src)
-             (flags : list input_src) (prog : option (list stmt)) : cli_result :=
-    match m with
-    | MNoScript => cli_fail 1
-    | _ => cli_run m out_file stdin flags prog
     end.
 End Cli.
 
